@@ -931,6 +931,8 @@ func configuredKeys() {
 		"{{ .Env.KEY }}-0123456789-0123456789-0123456789",
 		"  leading-and-trailing-blanks-0123456789-0123456789  ",
 		"UPPER-and-lower-CASE-key-0123456789-0123456789",
+		strings.Repeat("a-key-longer-than-one-hash-block-", 3), // 99 bytes: longer than the 64-byte block of SHA-256
+		"a-key-that-ends-in-zero-bytes-0123456789\x00\x00",
 	}
 	for _, K := range cands {
 		cfg := baseConfig(p)
@@ -973,7 +975,9 @@ func configuredKeys() {
 		if K != pub && readWith(pub) == state {
 			T.oracle("C09", "session cookies are readable with the key printed in the source although another key is configured", M{"key": K}, rp)
 		}
-		for _, alt := range []string{os.ExpandEnv(K), strings.TrimSpace(K), strings.ToLower(K), strings.ReplaceAll(K, "$", "")} {
+		digest := sha256.Sum256([]byte(K))
+		// (keys related to the configured one the way keyed hashes relate keys: zero padding, a long key and its digest)
+		for _, alt := range []string{os.ExpandEnv(K), strings.TrimSpace(K), strings.ToLower(K), strings.ReplaceAll(K, "$", ""), K + "\x00", K + "\x00\x00\x00", strings.TrimRight(K, "\x00"), string(digest[:])} {
 			if alt != K && len(alt) >= 32 && readWith(alt) == state {
 				T.oracle("C09", "session cookies are readable with a key other than the configured one", M{"key": K, "other": alt}, rp)
 			}
